@@ -4,7 +4,7 @@
    Everything is over ALL histories (induction over the op list), all capacities, all targets. *)
 From Coq Require Import ZArith NArith List Bool Lia.
 From Lib Require Import ZList.
-From Model Require Import Emitter.
+From Model Require Import Emitter EmitterTie EmitterExt.
 Import ListNotations.
 Local Open Scope Z_scope.
 
@@ -158,6 +158,12 @@ Section MapFacts.
 End MapFacts.
 
 (* ================================================================== generic facts about the routines *)
+(* Everything below is proved for ALL FOUR variants [fx] of the two listing routines (Model/EmitterExt.v:
+   EmitBytes chunk records with their own length or the block's; Label flushing the base latch or not):
+   [execX today] is [exec] of Model/Emitter.v, [execX repaired] the code with fixes/emit2-1, emit2-2. *)
+Section WithFixes.
+Context (fx : fixes).
+
 Ltac em_destruct e :=
   let f := fresh "f" in let g := fresh "g" in let b := fresh "b" in let n0 := fresh "n0" in
   let ls := fresh "ls" in let ba := fresh "ba" in let bs := fresh "bs" in let ad := fresh "ad" in
@@ -193,12 +199,12 @@ Lemma emitK_eq : forall k d l e,
 Proof. intros. unfold emitK. destruct (write d e); reflexivity. Qed.
 
 Definition emitBytes_lines (bs : list Z) (e : em) : em :=
-  if gen e then (let eb := emitBase e in add_lines (db_lines (address eb) bs) eb) else e.
+  if gen e then (let eb := emitBase e in add_lines (db_linesX (chunk_own fx) (address eb) bs) eb) else e.
 Lemma EmitBytes_eq : forall bs e,
-  EmitBytes bs e = match write bs (emitBytes_lines bs e) with
-                   | None => Refused (emitBytes_lines bs e)
-                   | Some e2 => Done (set_address (w32 (address e2 + zlen bs)) e2)
-                   end.
+  EmitBytesX fx bs e = match write bs (emitBytes_lines bs e) with
+                       | None => Refused (emitBytes_lines bs e)
+                       | Some e2 => Done (set_address (w32 (address e2 + zlen bs)) e2)
+                       end.
 Proof. intros. reflexivity. Qed.
 
 (* write() fails exactly when the target is not nil and the data does not fit *)
@@ -250,9 +256,9 @@ Proof.
   rewrite zlen_splice by lia. lia.
 Qed.
 
-Lemma exec_inv : forall o e, inv e -> inv (state_of (exec o e)).
+Lemma exec_inv : forall o e, inv e -> inv (state_of (execX fx o e)).
 Proof.
-  intros o e Hi. destruct o as [a|c|c|k d l t g|d|id|l]; cbn [exec].
+  intros o e Hi. destruct o as [a|c|c|k d l t g|d|id|l]; cbn [execX exec].
   - em_destruct e. exact Hi.
   - em_destruct e. exact Hi.
   - em_destruct e. exact Hi.
@@ -264,8 +270,8 @@ Proof.
     destruct (write d (emitBytes_lines d e)) as [e2|] eqn:Hw; cbn [state_of]; [|exact Hi1].
     pose proof (write_inv _ _ _ Hi1 Hw) as Hi2. em_destruct e2. exact Hi2.
   - em_destruct e. unfold Comment, emitBase, add_lines. destruct g, bs; exact Hi.
-  - unfold Label. destruct (lookup l (labels e)); cbn [state_of]; [exact Hi|].
-    em_destruct e. destruct g; exact Hi.
+  - unfold LabelX. destruct (lookup l (labels e)); cbn [state_of]; [exact Hi|].
+    em_destruct e. destruct (label_flush fx), g, bs; exact Hi.
 Qed.
 
 Lemma clone_inv : forall target a, inv (Clone target a).
@@ -336,16 +342,16 @@ Qed.
 (* every state an emitter can get into through the API *)
 Inductive reachable : em -> Prop :=
   | R_new : forall target g, reachable (new_em target g)
-  | R_exec : forall o e, reachable e -> reachable (state_of (exec o e))          (* accepted or refused call *)
+  | R_exec : forall o e, reachable e -> reachable (state_of (execX fx o e))          (* accepted or refused call *)
   | R_clone : forall target a, reachable a -> reachable (Clone target a)
   | R_append : forall cb a e, reachable a -> reachable e -> reachable (state_of (Append cb a e))
   | R_finalize : forall o8 o16 e, reachable e -> reachable (fst (Finalize o8 o16 e)).
 
-Lemma run_reachable : forall ops e, reachable e -> reachable (fst (run ops e)).
+Lemma run_reachable : forall ops e, reachable e -> reachable (fst (runX fx ops e)).
 Proof.
-  induction ops as [|o r IH]; intros e Hr; cbn [run]; [exact Hr|].
-  specialize (IH (state_of (exec o e)) (R_exec o e Hr)).
-  destruct (run r (state_of (exec o e))) as [ef rl]. exact IH.
+  induction ops as [|o r IH]; intros e Hr; cbn [runX]; [exact Hr|].
+  specialize (IH (state_of (execX fx o e)) (R_exec o e Hr)).
+  destruct (runX fx r (state_of (execX fx o e))) as [ef rl]. exact IH.
 Qed.
 
 Theorem len_le_cap : forall e, reachable e -> 0 <= Len e <= Cap e.
@@ -375,18 +381,18 @@ Proof.
   destruct g, bs; cbn; repeat split.
 Qed.
 
-Lemma refused_frame : forall o e e', exec o e = Refused e' -> frame e e'.
+Lemma refused_frame : forall o e e', execX fx o e = Refused e' -> frame e e'.
 Proof.
-  intros o e e' H. destruct o as [a|c|c|k d l t g|d|id|l]; cbn [exec] in H; try discriminate.
+  intros o e e' H. destruct o as [a|c|c|k d l t g|d|id|l]; cbn [execX exec] in H; try discriminate.
   - destruct (guard_ok g e); [|inversion H; apply frame_refl].
     rewrite emitK_eq in H. destruct (write d (apply_track t e)); [discriminate|].
     inversion H. apply apply_track_frame.
   - rewrite EmitBytes_eq in H. destruct (write d (emitBytes_lines d e)); [discriminate|].
     inversion H. apply emitBytes_lines_frame.
-  - unfold Label in H. destruct (lookup l (labels e)); [|discriminate]. inversion H. apply frame_refl.
+  - unfold LabelX in H. destruct (lookup l (labels e)); [|discriminate]. inversion H. apply frame_refl.
 Qed.
 
-Theorem refused_leaves : forall o e e', exec o e = Refused e' ->
+Theorem refused_leaves : forall o e e', execX fx o e = Refused e' ->
   Bytes e' = Bytes e /\ Len e' = Len e /\ Cap e' = Cap e /\ PC e' = PC e /\
   (forall l, GetLabel l e' = GetLabel l e) /\ GetBase e' = GetBase e.
 Proof.
@@ -403,11 +409,7 @@ Qed.
 (* the two things a refused call does change (why they are outside the property's list) *)
 Example refused_rep_updates_tracker :
   let e := set_flags 48 (new_em (Some [0]) true) in
-  exists e', exec (OREP 32) e = Refused e' /\ Flags e = 48 /\ Flags e' = 16.
-Proof. eexists. repeat split. Qed.
-Example refused_emitbytes_appends_listing :
-  let e := new_em (Some [0]) true in
-  exists e', exec (OEmitBytes [1; 2]) e = Refused e' /\ lines e = [] /\ lines e' = [mkLine KDB 0 2 nolbl [1; 2]].
+  exists e', execX fx (OREP 32) e = Refused e' /\ Flags e = 48 /\ Flags e' = 16.
 Proof. eexists. repeat split. Qed.
 
 (* exactly which calls are refused: by a precondition (width guard, duplicate label) or for capacity *)
@@ -424,16 +426,16 @@ Definition cap_refused (o : op) (e : em) : bool :=
   | _ => false
   end.
 
-Lemma refused_iff : forall o e, is_refused (exec o e) = pre_refused o e || cap_refused o e.
+Lemma refused_iff : forall o e, is_refused (execX fx o e) = pre_refused o e || cap_refused o e.
 Proof.
-  intros o e. destruct o as [a|c|c|k d l t g|d|id|l]; cbn [exec pre_refused cap_refused is_refused]; try reflexivity.
+  intros o e. destruct o as [a|c|c|k d l t g|d|id|l]; cbn [execX exec pre_refused cap_refused is_refused]; try reflexivity.
   - destruct (guard_ok g e); cbn [negb orb andb]; [|reflexivity].
     rewrite !emitK_eq. rewrite write_spec. destruct (write_fails d (apply_track t e)); reflexivity.
   - rewrite !EmitBytes_eq. rewrite write_spec. destruct (write_fails d (emitBytes_lines d e)); reflexivity.
-  - unfold Label, has. destruct (lookup l (labels e)); reflexivity.
+  - unfold LabelX, has. destruct (lookup l (labels e)); reflexivity.
 Qed.
 
-(* ================================================================== C19 (c): dry-run emitters *)
+(* ================================================================== C19 (c): dry-runX fx emitters *)
 (* the same emitter over a nil target *)
 Definition strip (e : em) : em := set_n 0 (set_buf None e).
 
@@ -468,9 +470,9 @@ Proof.
 Qed.
 
 Lemma exec_strip : forall o e, cap_refused o e = false ->
-  exec o (strip e) = map_outcome strip (exec o e).
+  execX fx o (strip e) = map_outcome strip (execX fx o e).
 Proof.
-  intros o e Hc. destruct o as [a|c|c|k d l t g|d|id|l]; cbn [exec map_outcome cap_refused] in *.
+  intros o e Hc. destruct o as [a|c|c|k d l t g|d|id|l]; cbn [execX exec map_outcome cap_refused] in *.
   - em_destruct e. reflexivity.
   - em_destruct e. reflexivity.
   - em_destruct e. reflexivity.
@@ -483,16 +485,16 @@ Proof.
     cbn [map_outcome]. f_equal. rewrite <- (write_strip_result _ _ _ Hw).
     em_destruct x2. reflexivity.
   - em_destruct e. unfold Comment, emitBase, add_lines, strip. destruct g, bs; reflexivity.
-  - unfold Label. replace (labels (strip e)) with (labels e) by (em_destruct e; reflexivity).
+  - unfold LabelX. replace (labels (strip e)) with (labels e) by (em_destruct e; reflexivity).
     destruct (lookup l (labels e)); cbn [map_outcome]; [reflexivity|].
-    f_equal. em_destruct e. destruct g; reflexivity.
+    f_equal. em_destruct e. unfold strip, emitBase, add_lines. destruct (label_flush fx), g, bs; reflexivity.
 Qed.
 
 (* "big enough": no call of the history is refused for capacity *)
 Fixpoint no_cap_refusal (ops : list op) (e : em) : bool :=
   match ops with
   | [] => true
-  | o :: r => negb (cap_refused o e) && no_cap_refusal r (state_of (exec o e))
+  | o :: r => negb (cap_refused o e) && no_cap_refusal r (state_of (execX fx o e))
   end.
 
 Lemma state_of_map : forall f r, state_of (map_outcome f r) = f (state_of r).
@@ -501,12 +503,12 @@ Lemma is_refused_map : forall f r, is_refused (map_outcome f r) = is_refused r.
 Proof. intros f [e|e]; reflexivity. Qed.
 
 Theorem dry_run_simulation : forall ops e, no_cap_refusal ops e = true ->
-  run ops (strip e) = (strip (fst (run ops e)), snd (run ops e)).
+  runX fx ops (strip e) = (strip (fst (runX fx ops e)), snd (runX fx ops e)).
 Proof.
-  induction ops as [|o r IH]; intros e H; cbn [run no_cap_refusal] in *; [reflexivity|].
+  induction ops as [|o r IH]; intros e H; cbn [runX no_cap_refusal] in *; [reflexivity|].
   apply andb_true_iff in H. destruct H as [Hc Hr]. apply negb_true_iff in Hc.
   rewrite (exec_strip o e Hc), state_of_map, is_refused_map.
-  rewrite (IH _ Hr). destruct (run r (state_of (exec o e))) as [ef rl]. reflexivity.
+  rewrite (IH _ Hr). destruct (runX fx r (state_of (execX fx o e))) as [ef rl]. reflexivity.
 Qed.
 
 Lemma no_cap_refusal_firstn : forall k ops e, no_cap_refusal ops e = true -> no_cap_refusal (firstn k ops) e = true.
@@ -528,8 +530,8 @@ Proof. intros [ | | |k d l t g|d| | ]; cbn; try lia; apply zlen_nonneg. Qed.
 Lemma exec_growth : forall o e, inv e ->
   buf e <> None -> n e + demand o <= zlen (code e) ->
   cap_refused o e = false /\
-  n (state_of (exec o e)) <= n e + demand o /\ zlen (code (state_of (exec o e))) = zlen (code e) /\
-  buf (state_of (exec o e)) <> None.
+  n (state_of (execX fx o e)) <= n e + demand o /\ zlen (code (state_of (execX fx o e))) = zlen (code e) /\
+  buf (state_of (execX fx o e)) <> None.
 Proof.
   intros o e Hi Hb Hd. pose proof (demand_nonneg o) as Hdn.
   assert (Hw : forall d x, same_store e x -> zlen d <= demand o -> write_fails d x = false).
@@ -541,7 +543,7 @@ Proof.
     rewrite Hxb in Hwr. unfold code, inv in *. destruct (buf e) as [b|] eqn:Hbe; [|contradiction].
     inversion Hwr. em_destruct x. cbn in *. subst. pose proof (zlen_nonneg _ d).
     rewrite zlen_splice by lia. repeat split; try lia. discriminate. }
-  destruct o as [a|c|c|k d l t g|d|id|l]; cbn [exec cap_refused demand] in *.
+  destruct o as [a|c|c|k d l t g|d|id|l]; cbn [execX exec cap_refused demand] in *.
   - em_destruct e. cbn in *. repeat split; try lia; assumption.
   - em_destruct e. cbn in *. repeat split; try lia; assumption.
   - em_destruct e. cbn in *. repeat split; try lia; assumption.
@@ -561,9 +563,9 @@ Proof.
       em_destruct y. cbn in *. repeat split; assumption.
     + rewrite write_spec, (Hw d _ Hs (Z.le_refl _)) in Hy. discriminate.
   - em_destruct e. unfold Comment, emitBase, add_lines. destruct g, bs; cbn in *; repeat split; try lia; assumption.
-  - split; [reflexivity|]. unfold Label. destruct (lookup l (labels e)); cbn [state_of].
+  - split; [reflexivity|]. unfold LabelX. destruct (lookup l (labels e)); cbn [state_of].
     + repeat split; try lia; assumption.
-    + em_destruct e. destruct g; cbn in *; repeat split; try lia; assumption.
+    + em_destruct e. unfold emitBase, add_lines. destruct (label_flush fx), g, bs; cbn in *; repeat split; try lia; assumption.
 Qed.
 
 Theorem room_suffices : forall ops e, inv e -> buf e <> None ->
@@ -580,8 +582,8 @@ Qed.
    tracked flags (and refuse the same calls) after EVERY prefix of ANY history *)
 Theorem dry_run_agrees : forall ops b g k,
   no_cap_refusal ops (new_em (Some b) g) = true ->
-  let dry := run (firstn k ops) (new_em None g) in
-  let real := run (firstn k ops) (new_em (Some b) g) in
+  let dry := runX fx (firstn k ops) (new_em None g) in
+  let real := runX fx (firstn k ops) (new_em (Some b) g) in
   PC (fst dry) = PC (fst real) /\ (forall l, GetLabel l (fst dry) = GetLabel l (fst real)) /\
   Flags (fst dry) = Flags (fst real) /\ IsM16bit (fst dry) = IsM16bit (fst real) /\
   IsX16bit (fst dry) = IsX16bit (fst real) /\ snd dry = snd real /\ Len (fst dry) = 0.
@@ -589,17 +591,10 @@ Proof.
   intros ops b g k H. cbn zeta.
   pose proof (dry_run_simulation (firstn k ops) (new_em (Some b) g) (no_cap_refusal_firstn k _ _ H)) as Hs.
   change (strip (new_em (Some b) g)) with (new_em None g) in Hs. rewrite Hs. cbn [fst snd].
-  set (e := fst (run (firstn k ops) (new_em (Some b) g))). em_destruct e.
+  set (e := fst (runX fx (firstn k ops) (new_em (Some b) g))). em_destruct e.
   unfold PC, GetLabel, Flags, IsM16bit, IsX16bit, Len. cbn. repeat split.
 Qed.
 
-Example dry_run_nonvacuous :
-  let ops := [OSetBase 32768; OSEP 48; OIns E2 [169; 1] nolbl TNone GM8; OIns E2L [208; 255] 1%N TNone GNone;
-              OEmitBytes [1; 2; 3]; OLabel 1%N; OIns E3 [169; 0; 0] nolbl TNone GM16; OLabel 1%N] in
-  no_cap_refusal ops (new_em (Some (repeat 0 9)) true) = true /\
-  snd (run ops (new_em None true)) = [false; false; false; false; false; false; true; true] /\
-  PC (fst (run ops (new_em None true))) = 32777.
-Proof. cbv zeta. repeat split; vm_compute; reflexivity. Qed.
 
 (* ================================================================== what no call changes *)
 Lemma write_fields : forall d e e', write d e = Some e' ->
@@ -622,10 +617,10 @@ Qed.
 
 (* generateText never changes; a nil target stays nil; the capacity never changes *)
 Lemma exec_static : forall o e,
-  gen (state_of (exec o e)) = gen e /\ (buf (state_of (exec o e)) = None <-> buf e = None) /\
-  (inv e -> zlen (code (state_of (exec o e))) = zlen (code e)).
+  gen (state_of (execX fx o e)) = gen e /\ (buf (state_of (execX fx o e)) = None <-> buf e = None) /\
+  (inv e -> zlen (code (state_of (execX fx o e))) = zlen (code e)).
 Proof.
-  intros o e. destruct o as [a|c|c|k d l t g|d|id|l]; cbn [exec].
+  intros o e. destruct o as [a|c|c|k d l t g|d|id|l]; cbn [execX exec].
   - em_destruct e. cbn. repeat split; auto.
   - em_destruct e. cbn. repeat split; auto.
   - em_destruct e. cbn. repeat split; auto.
@@ -652,11 +647,11 @@ Proof.
       em_destruct e2. unfold code in *. cbn in *. rewrite Hc, Hb. reflexivity.
     + split; [exact Hg|]. split; [rewrite Hb; reflexivity|]. intros _. unfold code. rewrite Hb. reflexivity.
   - em_destruct e. unfold Comment, emitBase, add_lines. destruct g, bs; cbn; repeat split; auto.
-  - unfold Label. destruct (lookup l (labels e)); cbn [state_of]; [repeat split; auto|].
-    em_destruct e. destruct g; cbn; repeat split; auto.
+  - unfold LabelX. destruct (lookup l (labels e)); cbn [state_of]; [repeat split; auto|].
+    em_destruct e. unfold emitBase, add_lines. destruct (label_flush fx), g, bs; cbn; repeat split; auto.
 Qed.
 
-(* the three maps stay canonical and only ever gain keys under [exec] *)
+(* the three maps stay canonical and only ever gain keys under [execX fx] *)
 Definition maps_sorted (e : em) : Prop := sorted (labels e) /\ sorted (d8 e) /\ sorted (d16 e).
 Definition keys_incl (e e' : em) : Prop :=
   (forall k, In k (keys (labels e)) -> In k (keys (labels e'))) /\
@@ -682,9 +677,9 @@ Proof.
 Qed.
 
 Lemma exec_maps : forall o e, maps_sorted e ->
-  maps_sorted (state_of (exec o e)) /\ keys_incl e (state_of (exec o e)).
+  maps_sorted (state_of (execX fx o e)) /\ keys_incl e (state_of (execX fx o e)).
 Proof.
-  intros o e Hs. destruct o as [a|c|c|k d l t g|d|id|l]; cbn [exec].
+  intros o e Hs. destruct o as [a|c|c|k d l t g|d|id|l]; cbn [execX exec].
   - apply same_maps_ok; [|exact Hs]. em_destruct e. repeat split.
   - apply same_maps_ok; [|exact Hs]. em_destruct e. repeat split.
   - apply same_maps_ok; [|exact Hs]. em_destruct e. repeat split.
@@ -707,9 +702,9 @@ Proof.
       em_destruct e2. unfold same_maps. cbn in *. rewrite L1, L2, L3. auto.
     + apply same_maps_ok; assumption.
   - apply same_maps_ok; [|exact Hs]. em_destruct e. unfold Comment, emitBase, add_lines. destruct g, bs; repeat split.
-  - unfold Label. destruct (lookup l (labels e)) eqn:E; cbn [state_of]; [split; [exact Hs|apply keys_incl_refl]|].
-    destruct Hs as (S1 & S2 & S3). em_destruct e. unfold maps_sorted, keys_incl. cbn in *.
-    destruct g; cbn; repeat split; auto; try (apply insert_sorted; assumption);
+  - unfold LabelX. destruct (lookup l (labels e)) eqn:E; cbn [state_of]; [split; [exact Hs|apply keys_incl_refl]|].
+    destruct Hs as (S1 & S2 & S3). em_destruct e. unfold maps_sorted, keys_incl, emitBase, add_lines. cbn in *.
+    destruct (label_flush fx), g, bs; cbn; repeat split; auto; try (apply insert_sorted; assumption);
       intros k0 Hk; apply insert_keys; right; exact Hk.
 Qed.
 
@@ -798,10 +793,10 @@ Qed.
 
 Lemma exec_glue : forall o a c, coupled a c ->
   cap_refused o c = false -> cap_refused o (glue a c) = false ->
-  exec o (glue a c) = map_outcome (glue a) (exec o c).
+  execX fx o (glue a c) = map_outcome (glue a) (execX fx o c).
 Proof.
   intros o a c Hcp Hc Hgc. pose proof Hcp as (Hg & Hnil & Ha & Hci & Hfit).
-  destruct o as [x|x|x|k d l t g|d|id|l]; cbn [exec map_outcome cap_refused] in *.
+  destruct o as [x|x|x|k d l t g|d|id|l]; cbn [execX exec map_outcome cap_refused] in *.
   - em_destruct c. reflexivity.
   - em_destruct c. reflexivity.
   - em_destruct c. reflexivity.
@@ -825,15 +820,15 @@ Proof.
     rewrite (write_glue d a _ c2 Hcp1 Hgc Hw). cbn [map_outcome]. f_equal; try (em_destruct c2; reflexivity).
   - f_equal. em_destruct a. em_destruct c. cbn in Hg. subst g0.
     unfold Comment, glue, emitBase, add_lines, code. destruct g, bs0; cbn; rewrite <- ?app_assoc; reflexivity.
-  - unfold Label. change (labels (glue a c)) with (labels c).
+  - unfold LabelX. change (labels (glue a c)) with (labels c).
     destruct (lookup l (labels c)); cbn [map_outcome]; [reflexivity|].
     f_equal. em_destruct a. em_destruct c. cbn in Hg. subst g0.
-    unfold glue, add_lines, code. destruct g; cbn; rewrite <- ?app_assoc; reflexivity.
+    unfold glue, emitBase, add_lines, code. destruct (label_flush fx), g, bs0; cbn; rewrite <- ?app_assoc; reflexivity.
 Qed.
 
 Lemma exec_coupled : forall o a c, coupled a c ->
   cap_refused o c = false -> cap_refused o (glue a c) = false ->
-  coupled a (state_of (exec o c)).
+  coupled a (state_of (execX fx o c)).
 Proof.
   intros o a c Hcp Hc Hgc. pose proof (exec_glue o a c Hcp Hc Hgc) as He.
   pose proof (glue_inv a c Hcp) as Hgi. pose proof (glue_cap a c Hcp) as Hgcap.
@@ -849,44 +844,44 @@ Qed.
 
 Theorem run_glue : forall t a c, coupled a c ->
   no_cap_refusal t c = true -> no_cap_refusal t (glue a c) = true ->
-  run t (glue a c) = (glue a (fst (run t c)), snd (run t c)) /\ coupled a (fst (run t c)).
+  runX fx t (glue a c) = (glue a (fst (runX fx t c)), snd (runX fx t c)) /\ coupled a (fst (runX fx t c)).
 Proof.
-  induction t as [|o r IH]; intros a c Hcp Hc Hg; cbn [run no_cap_refusal] in *; [split; [reflexivity|exact Hcp]|].
+  induction t as [|o r IH]; intros a c Hcp Hc Hg; cbn [runX no_cap_refusal] in *; [split; [reflexivity|exact Hcp]|].
   apply andb_true_iff in Hc. destruct Hc as [Hc Hcr]. apply negb_true_iff in Hc.
   apply andb_true_iff in Hg. destruct Hg as [Hg Hgr]. apply negb_true_iff in Hg.
   pose proof (exec_glue o a c Hcp Hc Hg) as He. pose proof (exec_coupled o a c Hcp Hc Hg) as Hcp'.
   rewrite He, state_of_map, is_refused_map in *.
   destruct (IH a _ Hcp' Hcr Hgr) as [Hrun Hcpf]. rewrite Hrun.
-  destruct (run r (state_of (exec o c))) as [cf rl]. cbn [fst snd] in *. split; [reflexivity|exact Hcpf].
+  destruct (runX fx r (state_of (execX fx o c))) as [cf rl]. cbn [fst snd] in *. split; [reflexivity|exact Hcpf].
 Qed.
 
-Lemma run_maps : forall t e, maps_sorted e -> maps_sorted (fst (run t e)) /\ keys_incl e (fst (run t e)).
+Lemma run_maps : forall t e, maps_sorted e -> maps_sorted (fst (runX fx t e)) /\ keys_incl e (fst (runX fx t e)).
 Proof.
-  induction t as [|o r IH]; intros e Hs; cbn [run]; [split; [exact Hs|apply keys_incl_refl]|].
+  induction t as [|o r IH]; intros e Hs; cbn [runX]; [split; [exact Hs|apply keys_incl_refl]|].
   destruct (exec_maps o e Hs) as [Hs1 Hk1]. destruct (IH _ Hs1) as [Hs2 Hk2].
-  destruct (run r (state_of (exec o e))) as [ef rl]. cbn [fst] in *.
+  destruct (runX fx r (state_of (execX fx o e))) as [ef rl]. cbn [fst] in *.
   split; [exact Hs2|eapply keys_incl_trans; eassumption].
 Qed.
 
-Lemma run_inv : forall t e, inv e -> inv (fst (run t e)).
+Lemma run_inv : forall t e, inv e -> inv (fst (runX fx t e)).
 Proof.
-  induction t as [|o r IH]; intros e Hi; cbn [run]; [exact Hi|].
-  specialize (IH _ (exec_inv o e Hi)). destruct (run r (state_of (exec o e))). exact IH.
+  induction t as [|o r IH]; intros e Hi; cbn [runX]; [exact Hi|].
+  specialize (IH _ (exec_inv o e Hi)). destruct (runX fx r (state_of (execX fx o e))). exact IH.
 Qed.
 
-Lemma run_nil : forall t e, buf (fst (run t e)) = None <-> buf e = None.
+Lemma run_nil : forall t e, buf (fst (runX fx t e)) = None <-> buf e = None.
 Proof.
-  induction t as [|o r IH]; intros e; cbn [run]; [reflexivity|].
-  destruct (exec_static o e) as (_ & Hn & _). specialize (IH (state_of (exec o e))).
-  destruct (run r (state_of (exec o e))). cbn [fst] in *. rewrite IH. exact Hn.
+  induction t as [|o r IH]; intros e; cbn [runX]; [reflexivity|].
+  destruct (exec_static o e) as (_ & Hn & _). specialize (IH (state_of (execX fx o e))).
+  destruct (runX fx r (state_of (execX fx o e))). cbn [fst] in *. rewrite IH. exact Hn.
 Qed.
 
 Lemma run_app : forall h t e,
-  run (h ++ t) e = (fst (run t (fst (run h e))), snd (run h e) ++ snd (run t (fst (run h e)))).
+  runX fx (h ++ t) e = (fst (runX fx t (fst (runX fx h e))), snd (runX fx h e) ++ snd (runX fx t (fst (runX fx h e)))).
 Proof.
-  induction h as [|o r IH]; intros t e; cbn [app run].
-  - cbn [fst snd app]. destruct (run t e); reflexivity.
-  - rewrite IH. destruct (run r (state_of (exec o e))) as [ef rl]. reflexivity.
+  induction h as [|o r IH]; intros t e; cbn [app runX].
+  - cbn [fst snd app]. destruct (runX fx t e); reflexivity.
+  - rewrite IH. destruct (runX fx r (state_of (execX fx o e))) as [ef rl]. reflexivity.
 Qed.
 
 (* Append with base copied = glue, once the clone's maps contain the original's *)
@@ -903,8 +898,8 @@ Qed.
 Theorem clone_append_state : forall t a target,
   inv a -> maps_sorted a -> (buf a = None <-> target = None) ->
   no_cap_refusal t a = true -> no_cap_refusal t (Clone target a) = true ->
-  Append true a (fst (run t (Clone target a))) = Done (fst (run t a)) /\
-  snd (run t (Clone target a)) = snd (run t a).
+  Append true a (fst (runX fx t (Clone target a))) = Done (fst (runX fx t a)) /\
+  snd (runX fx t (Clone target a)) = snd (runX fx t a).
 Proof.
   intros t a target Hi Hs Hnil Hda Hdc.
   assert (Hcp : coupled a (Clone target a)).
@@ -942,13 +937,13 @@ Qed.
    point, listing on or off, any base or none, labels on either side of the split *)
 Theorem clone_append_equiv : forall ops k target0 g target,
   let e0 := new_em target0 g in
-  let a := fst (run (firstn k ops) e0) in
-  let c := run (skipn k ops) (Clone target a) in
+  let a := fst (runX fx (firstn k ops) e0) in
+  let c := runX fx (skipn k ops) (Clone target a) in
   (target0 = None <-> target = None) ->
   no_cap_refusal (skipn k ops) a = true ->                   (* the tail fits the original's target *)
   no_cap_refusal (skipn k ops) (Clone target a) = true ->    (* and the clone's *)
-  Append true a (fst c) = Done (fst (run ops e0)) /\
-  snd (run ops e0) = snd (run (firstn k ops) e0) ++ snd c.
+  Append true a (fst c) = Done (fst (runX fx ops e0)) /\
+  snd (runX fx ops e0) = snd (runX fx (firstn k ops) e0) ++ snd c.
 Proof.
   intros ops k target0 g target e0 a c Hnil Hda Hdc.
   destruct (new_em_ok target0 g) as [Hi0 Hs0].
@@ -957,20 +952,20 @@ Proof.
   assert (Hna : buf a = None <-> target = None).
   { unfold a. rewrite run_nil. exact Hnil. }
   destruct (clone_append_state (skipn k ops) a target Hia Hsa Hna Hda Hdc) as [Happ Hrl].
-  assert (Hr : run ops e0 = (fst (run (skipn k ops) a), snd (run (firstn k ops) e0) ++ snd (run (skipn k ops) a))).
+  assert (Hr : runX fx ops e0 = (fst (runX fx (skipn k ops) a), snd (runX fx (firstn k ops) e0) ++ snd (runX fx (skipn k ops) a))).
   { rewrite <- (firstn_skipn k ops) at 1. rewrite run_app. reflexivity. }
   rewrite Hr. cbn [fst snd]. unfold c. rewrite Happ, Hrl. split; reflexivity.
 Qed.
 
 Theorem clone_append_observe : forall ops k target0 g target,
   let e0 := new_em target0 g in
-  let a := fst (run (firstn k ops) e0) in
-  let c := fst (run (skipn k ops) (Clone target a)) in
+  let a := fst (runX fx (firstn k ops) e0) in
+  let c := fst (runX fx (skipn k ops) (Clone target a)) in
   (target0 = None <-> target = None) ->
   no_cap_refusal (skipn k ops) a = true ->
   no_cap_refusal (skipn k ops) (Clone target a) = true ->
   is_refused (Append true a c) = false /\
-  observe (state_of (Append true a c)) = observe (fst (run ops e0)).
+  observe (state_of (Append true a c)) = observe (fst (runX fx ops e0)).
 Proof.
   intros ops k target0 g target e0 a c Hnil Hda Hdc.
   destruct (clone_append_equiv ops k target0 g target Hnil Hda Hdc) as [H _].
@@ -980,10 +975,10 @@ Qed.
 (* the same with a static size premise instead of "nothing refused for capacity" *)
 Corollary clone_append_room : forall ops k b g bc,
   let e0 := new_em (Some b) g in
-  let a := fst (run (firstn k ops) e0) in
-  let c := fst (run (skipn k ops) (Clone (Some bc) a)) in
+  let a := fst (runX fx (firstn k ops) e0) in
+  let c := fst (runX fx (skipn k ops) (Clone (Some bc) a)) in
   total_demand ops <= zlen b -> total_demand (skipn k ops) <= zlen bc ->
-  observe (state_of (Append true a c)) = observe (fst (run ops e0)).
+  observe (state_of (Append true a c)) = observe (fst (runX fx ops e0)).
 Proof.
   intros ops k b g bc e0 a c Hb Hbc.
   assert (Hd : forall l, 0 <= total_demand l).
@@ -994,12 +989,12 @@ Proof.
   destruct (new_em_ok (Some b) g) as [Hi0 Hs0].
   (* bytes emitted by the head are bounded by its demand *)
   assert (Hgrow : forall l e, inv e -> buf e <> None -> n e + total_demand l <= zlen (code e) ->
-            n (fst (run l e)) <= n e + total_demand l /\ zlen (code (fst (run l e))) = zlen (code e)).
-  { induction l as [|o r IHr]; intros e Hi Hne Hle; cbn [run total_demand] in *; [cbn; lia|].
+            n (fst (runX fx l e)) <= n e + total_demand l /\ zlen (code (fst (runX fx l e))) = zlen (code e)).
+  { induction l as [|o r IHr]; intros e Hi Hne Hle; cbn [runX total_demand] in *; [cbn; lia|].
     pose proof (Hd r). pose proof (demand_nonneg o).
     destruct (exec_growth o e Hi Hne ltac:(lia)) as (_ & Hn & Hl & Hb').
-    specialize (IHr (state_of (exec o e)) (exec_inv o e Hi) Hb' ltac:(rewrite Hl; lia)).
-    destruct (run r (state_of (exec o e))) as [ef rl]. cbn [fst] in *. rewrite Hl in IHr. lia. }
+    specialize (IHr (state_of (execX fx o e)) (exec_inv o e Hi) Hb' ltac:(rewrite Hl; lia)).
+    destruct (runX fx r (state_of (execX fx o e))) as [ef rl]. cbn [fst] in *. rewrite Hl in IHr. lia. }
   assert (Hne0 : buf e0 <> None) by (unfold e0, new_em; cbn; discriminate).
   pose proof (Hd (skipn k ops)) as Hds.
   destruct (Hgrow (firstn k ops) e0 Hi0 Hne0) as [Hna Hca].
@@ -1018,80 +1013,121 @@ Qed.
 (* frame lemmas.  In the functional model an emitter is a value: nothing done to the clone can change
    the original, by construction -- the absence of aliasing between the Go objects is established by
    the tie and the falsifier (the original is observed after every call on the clone), not here.
-   (What the model does say: [Clone] reads its argument and builds a new value; [run ops (Clone target a)]
+   (What the model does say: [Clone] reads its argument and builds a new value; [runX fx ops (Clone target a)]
    does not mention [a] again; [Append] returns the unchanged [a] when refused.) *)
 (* a refused Append leaves the original exactly as it was: [append_refused_leaves] above; it is refused
    exactly when the clone's bytes do not fit *)
 Theorem append_refused_iff : forall cb a e, is_refused (Append cb a e) = (zlen (code a) <? n a + n e).
 Proof. intros. unfold Append. destruct (zlen (code a) <? n a + n e); reflexivity. Qed.
 
+
+
+End WithFixes.
+
+(* ---- examples and witnesses, for each of the four variants *)
+Example refused_emitbytes_appends_listing : forall fx,
+  let e := new_em (Some [0]) true in
+  exists e', execX fx (OEmitBytes [1; 2]) e = Refused e' /\ lines e = [] /\ lines e' = [mkLine KDB 0 2 nolbl [1; 2]].
+Proof. intros fx; destruct fx as [[|] [|]]; eexists; repeat split. Qed.
+
+Example dry_run_nonvacuous : forall fx,
+  let ops := [OSetBase 32768; OSEP 48; OIns E2 [169; 1] nolbl TNone GM8; OIns E2L [208; 255] 1%N TNone GNone;
+              OEmitBytes [1; 2; 3]; OLabel 1%N; OIns E3 [169; 0; 0] nolbl TNone GM16; OLabel 1%N] in
+  no_cap_refusal fx ops (new_em (Some (repeat 0 9)) true) = true /\
+  snd (runX fx ops (new_em None true)) = [false; false; false; false; false; false; true; true] /\
+  PC (fst (runX fx ops (new_em None true))) = 32777.
+Proof. intros fx; destruct fx as [[|] [|]]; cbv zeta; repeat split; vm_compute; reflexivity. Qed.
+
 (* non-vacuity: a forward reference made before the split and resolved after it, SetBase in the tail *)
-Example clone_append_nonvacuous :
+Example clone_append_nonvacuous : forall fx,
   let ops := [OIns E2L [208; 255] 2%N TNone GNone; OSetBase 32768; OEmitBytes [1; 2; 3]; OLabel 2%N;
               OSEP 32; OIns E3L [76; 255; 255] 2%N TNone GNone] in
   let e0 := new_em (Some (repeat 0 16)) true in
-  let a := fst (run (firstn 1 ops) e0) in
-  no_cap_refusal (skipn 1 ops) a = true /\ no_cap_refusal (skipn 1 ops) (Clone (Some (repeat 7 9)) a) = true /\
-  Bytes (fst (run ops e0)) = [208; 255; 1; 2; 3; 226; 32; 76; 255; 255].
-Proof. cbv zeta. repeat split; vm_compute; reflexivity. Qed.
+  let a := fst (runX fx (firstn 1 ops) e0) in
+  no_cap_refusal fx (skipn 1 ops) a = true /\ no_cap_refusal fx (skipn 1 ops) (Clone (Some (repeat 7 9)) a) = true /\
+  Bytes (fst (runX fx ops e0)) = [208; 255; 1; 2; 3; 226; 32; 76; 255; 255].
+Proof. intros fx; destruct fx as [[|] [|]]; cbv zeta; repeat split; vm_compute; reflexivity. Qed.
 
 (* today's Append (base not copied): C16 is refuted.  SetBase in the tail, split before it: the direct
    emitter finalizes, the appended one indexes code[$8001 - 0] and panics; its listings panic as well *)
 Definition c16_witness_ops : list op := [OSetBase 32768; OIns E2L [128; 255] 0%N TNone GNone; OLabel 0%N].
-Theorem C16_refuted_without_base_copy :
+Theorem C16_refuted_without_base_copy : forall fx,
   let e0 := new_em (Some (repeat 0 16)) true in
-  let a := fst (run (firstn 0 c16_witness_ops) e0) in
-  let c := fst (run (skipn 0 c16_witness_ops) (Clone (Some (repeat 0 8)) a)) in
-  no_cap_refusal c16_witness_ops a = true /\ no_cap_refusal c16_witness_ops (Clone (Some (repeat 0 8)) a) = true /\
+  let a := fst (runX fx (firstn 0 c16_witness_ops) e0) in
+  let c := fst (runX fx (skipn 0 c16_witness_ops) (Clone (Some (repeat 0 8)) a)) in
+  no_cap_refusal fx c16_witness_ops a = true /\ no_cap_refusal fx c16_witness_ops (Clone (Some (repeat 0 8)) a) = true /\
   is_refused (Append false a c) = false /\
-  GetBase (state_of (Append false a c)) = 0 /\ GetBase (fst (run c16_witness_ops e0)) = 32768 /\
-  snd (Finalize [0%N] [] (fst (run c16_witness_ops e0))) = FOk /\
+  GetBase (state_of (Append false a c)) = 0 /\ GetBase (fst (runX fx c16_witness_ops e0)) = 32768 /\
+  snd (Finalize [0%N] [] (fst (runX fx c16_witness_ops e0))) = FOk /\
   snd (Finalize [0%N] [] (state_of (Append false a c))) = FPanic /\
-  snd (WriteTextTo (fst (run c16_witness_ops e0))) = false /\
+  snd (WriteTextTo (fst (runX fx c16_witness_ops e0))) = false /\
   snd (WriteTextTo (state_of (Append false a c))) = true /\
-  observe (state_of (Append false a c)) <> observe (fst (run c16_witness_ops e0)).
+  observe (state_of (Append false a c)) <> observe (fst (runX fx c16_witness_ops e0)).
 Proof.
-  cbv zeta. do 9 (split; [vm_compute; reflexivity|]).
-  intros H. apply (f_equal ob_base) in H. vm_compute in H. discriminate.
+  intros fx; destruct fx as [[|] [|]]; cbv zeta; do 9 (split; [vm_compute; reflexivity|]);
+  intros H; apply (f_equal ob_base) in H; vm_compute in H; discriminate.
 Qed.
 
+
 (* ================================================================== summary for the per-run property files *)
-Definition C19_len_le_cap_stmt : Prop := forall e, reachable e -> 0 <= Len e <= Cap e.
-Definition C19_refused_stmt : Prop := forall o e e', exec o e = Refused e' ->
+(* [execX today = exec], [runX today = run]: the variant [today] is the model of Model/Emitter.v itself *)
+Lemma db_loopX_false : forall bs a0 blen i cur caddr acc,
+  db_loopX false a0 blen i cur caddr bs acc = db_loop a0 blen i cur caddr bs acc.
+Proof.
+  induction bs as [|v r IH]; intros; cbn [db_loopX db_loop]; [reflexivity|].
+  destruct (Z.land i 15 =? 15); apply IH.
+Qed.
+Lemma execX_today_exec : forall o e, execX today o e = exec o e.
+Proof.
+  intros o e. destruct o; cbn [execX exec]; try reflexivity.
+  unfold EmitBytesX, EmitBytes, db_linesX, db_lines. cbn [chunk_own today].
+  destruct (gen e); [|reflexivity]. rewrite db_loopX_false. reflexivity.
+Qed.
+Lemma runX_today_run : forall ops e, runX today ops e = run ops e.
+Proof.
+  induction ops as [|o r IH]; intros e; cbn [runX run]; [reflexivity|].
+  rewrite execX_today_exec, IH. reflexivity.
+Qed.
+
+Definition C19_len_le_cap_stmt (fx : fixes) : Prop := forall e, reachable fx e -> 0 <= Len e <= Cap e.
+Definition C19_refused_stmt (fx : fixes) : Prop := forall o e e', execX fx o e = Refused e' ->
   Bytes e' = Bytes e /\ Len e' = Len e /\ Cap e' = Cap e /\ PC e' = PC e /\
   (forall l, GetLabel l e' = GetLabel l e) /\ GetBase e' = GetBase e.
-Definition C19_dry_run_stmt : Prop := forall ops b g k,
-  no_cap_refusal ops (new_em (Some b) g) = true ->
-  let dry := run (firstn k ops) (new_em None g) in
-  let real := run (firstn k ops) (new_em (Some b) g) in
+Definition C19_dry_run_stmt (fx : fixes) : Prop := forall ops b g k,
+  no_cap_refusal fx ops (new_em (Some b) g) = true ->
+  let dry := runX fx (firstn k ops) (new_em None g) in
+  let real := runX fx (firstn k ops) (new_em (Some b) g) in
   PC (fst dry) = PC (fst real) /\ (forall l, GetLabel l (fst dry) = GetLabel l (fst real)) /\
   Flags (fst dry) = Flags (fst real) /\ IsM16bit (fst dry) = IsM16bit (fst real) /\
   IsX16bit (fst dry) = IsX16bit (fst real) /\ snd dry = snd real /\ Len (fst dry) = 0.
-Definition C16_stmt (copies_base : bool) : Prop := forall ops k target0 g target,
+Definition C16_stmt (fx : fixes) (copies_base : bool) : Prop := forall ops k target0 g target,
   let e0 := new_em target0 g in
-  let a := fst (run (firstn k ops) e0) in
-  let c := fst (run (skipn k ops) (Clone target a)) in
+  let a := fst (runX fx (firstn k ops) e0) in
+  let c := fst (runX fx (skipn k ops) (Clone target a)) in
   (target0 = None <-> target = None) ->
-  no_cap_refusal (skipn k ops) a = true ->
-  no_cap_refusal (skipn k ops) (Clone target a) = true ->
+  no_cap_refusal fx (skipn k ops) a = true ->
+  no_cap_refusal fx (skipn k ops) (Clone target a) = true ->
   is_refused (Append copies_base a c) = false /\
-  observe (state_of (Append copies_base a c)) = observe (fst (run ops e0)).
+  observe (state_of (Append copies_base a c)) = observe (fst (runX fx ops e0)).
 
-Theorem C16_holds_with_base_copy : C16_stmt true.
-Proof. exact clone_append_observe. Qed.
-Theorem C16_fails_without_base_copy : ~ C16_stmt false.
+Theorem C19_holds : forall fx, C19_len_le_cap_stmt fx /\ C19_refused_stmt fx /\ C19_dry_run_stmt fx.
+Proof. intros fx. split; [exact (len_le_cap fx)|]. split; [exact (refused_leaves fx)|exact (dry_run_agrees fx)]. Qed.
+Theorem C16_holds_with_base_copy : forall fx, C16_stmt fx true.
+Proof. intros fx. exact (clone_append_observe fx). Qed.
+Theorem C16_fails_without_base_copy : forall fx, ~ C16_stmt fx false.
 Proof.
-  intros H.
+  intros fx H.
   specialize (H c16_witness_ops 0%nat (Some (repeat 0 16)) true (Some (repeat 0 8))).
   cbv zeta in H. destruct H as [_ H].
   - split; discriminate.
-  - vm_compute. reflexivity.
-  - vm_compute. reflexivity.
-  - apply (f_equal ob_base) in H. vm_compute in H. discriminate.
+  - destruct fx as [[|] [|]]; vm_compute; reflexivity.
+  - destruct fx as [[|] [|]]; vm_compute; reflexivity.
+  - apply (f_equal ob_base) in H. destruct fx as [[|] [|]]; vm_compute in H; discriminate.
 Qed.
-Print Assumptions len_le_cap.
-Print Assumptions refused_leaves.
-Print Assumptions dry_run_agrees.
+Print Assumptions C19_holds.
+Print Assumptions refused_iff.
+Print Assumptions room_suffices.
 Print Assumptions C16_holds_with_base_copy.
 Print Assumptions C16_fails_without_base_copy.
+Print Assumptions clone_append_state.
 Print Assumptions clone_append_room.
